@@ -4,7 +4,7 @@ import ast
 
 from ..common import RUN_ROOT, STEP_ROOT, INIT_ROOT
 from ..model import norm, walk_no_nested, AnalysisError
-from ..rdef import flow_of
+from ..rdef import flow_of, ENTRY
 from ..cfg import node_reads
 
 EXPLANATION = (
@@ -107,6 +107,42 @@ def run(chk, prog, tier):
             else:
                 chk.violation("C09.a", fi.key, construct, "the completion status is not tied to the outcome of the termination test", loc=fi.loc(a))
     chk.floor("C09.a-status", nstat, 3, "assignments of the completion status")
+
+    # ------------------------------------------------------------ C09.d
+    # a call asking for k steps takes k steps unless the run finishes first: the step-count loop runs over range(<the num_steps parameter
+    # itself>) - the only definition of the bound reaching the loop is the function entry - so the number of days simulated by a sequence
+    # of calls is the sum of their arguments, however the run is partitioned
+    nloop = 0
+    for n in cfg.live_nodes():
+        if n.kind != "for" or not (isinstance(n.ast.iter, ast.Call) and norm(n.ast.iter.func) == "range"):
+            continue
+        if not any(flow.node_of(c) is not None and any(k == n.id for k, _ in cfg.transitive_control_deps(flow.node_of(c))) for c in steps):
+            continue
+        nloop += 1
+        construct = f"for {norm(n.ast.target)} in {norm(n.ast.iter)}"
+        args = n.ast.iter.args
+        bound = args[-1] if args else None
+        def _is_param(e, at, depth=0):
+            """e is the parameter as passed: the formal itself with only its entry definition, or a single-definition local copy / int() of it"""
+            if isinstance(e, ast.Call) and norm(e.func) == "int" and len(e.args) == 1:
+                return _is_param(e.args[0], at, depth)
+            if not isinstance(e, ast.Name) or depth > 3:
+                return False
+            ds = flow.defs_reaching(e.id, at)
+            if e.id in fi.params:
+                return ds == [ENTRY]
+            if len(ds) == 1 and ds[0] != ENTRY and isinstance(cfg.nodes[ds[0]].ast, ast.Assign):
+                return _is_param(cfg.nodes[ds[0]].ast.value, ds[0], depth + 1)
+            return False
+        good = len(args) == 1 and _is_param(bound, n.id)
+        if good:
+            chk.ok("C09.d", fi.key, construct, f"bound is the parameter as passed (`{norm(bound)}`; no redefinition reaches the loop)")
+        else:
+            redef = [norm(cfg.nodes[d].ast)[:60] for d in (flow.defs_reaching(bound.id, n.id) if isinstance(bound, ast.Name) else []) if d != ENTRY]
+            chk.violation("C09.d", fi.key, construct, "the step-count loop does not run over the requested number of steps as passed "
+                          f"({'redefined by ' + '; '.join(redef) if redef else 'bound is not the parameter'}): k steps requested are not k steps taken, so a "
+                          "partitioned run simulates other days than the uninterrupted one", loc=fi.loc(n.ast))
+    chk.floor("C09.d", nloop, 1, "step-count loops around _perform_timestep")
 
     # ------------------------------------------------------------ C09.b
     inits = _calls_of(prog, fi, "_initialize")
